@@ -223,6 +223,33 @@ def gen_cases(ctx):
                 p = g.package(cmd, n_elig=2, nfiles=3, extra=(sh,))
                 fn = [f for f, t in declared_names(p) if t["name"] == p["earlier"]][0]
                 add(p, ["-file=" + fn, "-type=" + p["earlier"]], ["file+named-in", sh])
+        # ---- a FUNCTION-LOCAL type named like the requested package-level type: every kind the sub-command's walk passes by
+        # (proved: C16_harmless_locals_ignored), before / in / after the declaring file, in every selection mode; plus one kind
+        # the walk does look at (advisory / F_nonpkg_type) ----
+        modes = ["file+named", "file", "file-sep", "star", "named-two", "star-sep"]
+        for kind in cligen.LOCAL_HARMLESS[cmd][:] + [rng.choice([k for k in cligen.LOCAL_KINDS if k not in cligen.LOCAL_HARMLESS[cmd]] or ["struct"])]:
+            for mode in ["named"] + rng.sample(modes, 2):
+                where = rng.choice(["earlier", "same", "later"])
+                p = g.package(cmd, n_elig=2, nfiles=rng.choice([2, 3]), extra=("local-shadow:%s:%s" % (kind, where),))
+                if not p.get("shadow_local"):
+                    continue
+                tgt, home = p["shadow_local"], p["shadow_home"]
+                tags = ["local-shadow-" + kind, "local-shadow-" + where]
+                if mode == "named":
+                    add(p, ["-type=" + tgt], ["named-one"] + tags)
+                elif mode == "file+named":
+                    add(p, ["-file=" + home, "-type=" + tgt], ["file+named-in"] + tags)
+                elif mode == "file":
+                    add(p, ["-file=" + home], ["file"] + tags)
+                elif mode == "file-sep":
+                    add(p, ["-file=" + home, "-sep"], ["file-sep"] + tags)
+                elif mode == "star":
+                    add(p, ["-type=*"], ["star"] + tags, directive="exact")
+                elif mode == "star-sep":
+                    add(p, ["-type=*", "-sep"], ["star-sep"] + tags, directive="exact")
+                else:
+                    oth = [n for n in p["elig_hint"] if n != tgt]
+                    add(p, ["-type=" + ",".join(rng.sample([tgt] + oth[:1], len(oth[:1]) + 1))], ["named-two"] + tags)
         # ---- an interface embedding a universe type (used to panic in rest's filter; repaired in /repo 83db8cb) ----
         p = g.package(cmd, n_elig=2, extra=("univ-embed",))
         add(p, ["-type=*"], ["star", "univ-embed"], directive="exact")
@@ -260,7 +287,9 @@ def gen_cases(ctx):
             extra.append("grouped")
         if rng.random() < 0.12:
             extra.append(rng.choice(["tparam-other-file", "tparam-same-file", "tparam-of-type-other-file", "embedded-earlier",
-                                     "field-earlier", "method-earlier", "ifaceembed-earlier", "otherpkg-earlier", "nonpkg-names", "nonpkg-names"]))
+                                     "field-earlier", "method-earlier", "ifaceembed-earlier", "otherpkg-earlier", "nonpkg-names", "nonpkg-names",
+                                     "local-shadow:%s:%s" % (rng.choice(cligen.LOCAL_KINDS), rng.choice(["earlier", "same", "later"])),
+                                     "local-shadow:%s:%s" % (rng.choice(cligen.LOCAL_HARMLESS[cmd]), rng.choice(["earlier", "same", "later"]))]))
         p = g.package(cmd, extra=tuple(extra), colocate=rng.random() < 0.2, suffix_names=rng.random() < 0.15,
                       foreign_header=rng.random() < 0.15)
         el = p["elig_hint"]
@@ -270,7 +299,7 @@ def gen_cases(ctx):
         if r < 0.35:
             n = rng.choice([1, 1, 2, 3])
             pool = el * 3 + allnames + ["Missing"]
-            focus = p.get("earlier") or p.get("shadowed")
+            focus = p.get("earlier") or p.get("shadowed") or p.get("shadow_local")
             if focus:
                 pool += [focus] * 12
             if p.get("nonpkg"):
@@ -285,7 +314,8 @@ def gen_cases(ctx):
             if rng.random() < 0.35:
                 sel = ["-file=" + rng.choice(p["files"])["name"]] + sel
                 tags = ["file+named-random"]
-            add(p, sel, tags + [e for e in extra if e.startswith("tparam-") or e.endswith("-earlier")], order=rng.choice(["sel-last", "sel-first"]))
+            add(p, sel, tags + [e for e in extra if e.startswith("tparam-") or e.endswith("-earlier")]
+                + ["local-shadow-" + e.split(":")[1] for e in extra if e.startswith("local-shadow:")], order=rng.choice(["sel-last", "sel-first"]))
         elif r < 0.55:
             sel = ["-file=" + rng.choice(p["files"])["name"]]
             if rng.random() < 0.4:
